@@ -829,7 +829,7 @@ const POOL: &[&str] = &["alpha", "beta", "gamma", "delta", "eps", "zeta", "Name"
 fn cell_for(ty_hint: u8) -> BoxedStrategy<CellV> {
     // ty_hint biases the column towards values that convert for a type, so that whole records succeed often
     let int = prop_oneof![Just(0i64), Just(1), Just(-1), -1000i64..1000, any::<i64>()].prop_map(CellV::Int);
-    let float = prop_oneof![Just(0.0f64), Just(1.5), Just(-2.25), Just(1e10), Just(3.0), -1e6f64..1e6, Just(1e300), Just(-0.0)].prop_map(CellV::Float);
+    let float = prop_oneof![Just(0.0f64), Just(1.5), Just(-2.25), Just(1e10), Just(3.0), -1e6f64..1e6, Just(1e300), Just(-0.0), Just(0.5), Just(-0.25), Just(1e-9), Just(0.999), -1.0f64..1.0].prop_map(CellV::Float);
     let numstr = prop_oneof![Just("42"), Just("-7"), Just("3.5"), Just("1e3"), Just("0"), Just(" 5"), Just("007"), Just("+8")].prop_map(|s| CellV::Str(s.to_string()));
     let boolstr = prop_oneof![Just("TRUE"), Just("true"), Just("True"), Just("FALSE"), Just("false"), Just("False"), Just("yes"), Just("tRUE")].prop_map(|s| CellV::Str(s.to_string()));
     let text = "[a-zA-Z é]{0,6}".prop_map(CellV::Str);
